@@ -362,7 +362,12 @@ def rule_strict(ctx):
             continue
         N = 5
         covered = set()
-        for p in ev.paths:
+        from ..rules import alternatives
+
+        class _VP(object):          # a path with one resolution of the conditional expressions in its value (`None if istop < 0 else istop`)
+            def __init__(self, p, value, extra):
+                self.value, self.guards, self.kind, self.node = value, tuple(p.guards) + tuple(extra), p.kind, p.node
+        for p in [_VP(p, v_, extra) for p in ev.paths for v_, extra in (alternatives(p.value) if p.kind == 'return' else [(p.value, ())])]:
             v = p.value
             if p.kind != 'return' or v[0] != 'tuple' or len(v[1]) != 2:
                 ctx.undecide('R4', 'unexpected outcome %s %s' % (p.kind, T.show(v)))
@@ -448,6 +453,13 @@ def rule_plumbing(ctx):
         if atom[0] == 'call' and T.dotted(atom[1]) == 'isinstance' and atom[2][0] == VAL \
                 and atom[2][1] == ('name', 'slice'):
             return True
+        # (the index is a slice: every other kind test, wherever it stands in the dispatch, is false)
+        if atom == T.mkcmp('is', VAL, T.CONST_NONE):
+            return False
+        if atom[0] == 'call' and T.call_name(atom) == 'isscalar' and atom[2] == (VAL,):
+            return False
+        if atom[0] == 'call' and T.dotted(atom[1]) == 'hasattr' and atom[2][:1] == (VAL,):
+            return False
         return None
     ev = run(ctx, fi, oracle=oracle)
     rets = ret_paths(ev)
